@@ -363,3 +363,124 @@ def gen_history(rng, nops=30, comp=None, out=None, nbps=None, rich=False, rot=Tr
                 op["stats"] = gen_stats(rng)
         h["ops"].append(op)
     return h
+
+
+# ------------------------------------------------------------------ blocks built directly with the raw add_* API
+def _uniq(seq):
+    out = []
+    for x in seq:
+        if x not in out:
+            out.append(x)
+    return out
+
+
+def gen_raw_block(rng, pools, bpi, bp):
+    """A 'wbx' operation: tables with distinct entries (so index = position) and items whose indices address them."""
+    tps = tps_of(bp)
+    odh = 0
+    for b in bp["odh"]:
+        odh = (odh << 8) | b
+    ips = _uniq([pools.ip() for _ in range(rng.choice([1, 2, 3]))])
+    names = _uniq([pools.name() for _ in range(rng.choice([1, 2, 4]))])
+    cts = _uniq([pools.ct() for _ in range(rng.choice([1, 2]))])
+
+    def idx(n):
+        return nat(rng.randrange(n))
+    qrr = _uniq([{"name_index": idx(len(names)), "classtype_index": idx(len(cts))} for _ in range(rng.choice([0, 1, 2]))])
+    rr = []
+    for _ in range(rng.choice([0, 1, 3])):
+        r = {"name_index": idx(len(names)), "classtype_index": idx(len(cts))}
+        if rng.random() < 0.5:
+            r["ttl"] = nat(bounded(rng, 32))
+        if rng.random() < 0.5:
+            r["rdata_index"] = idx(len(names))
+        rr.append(r)
+    rr = _uniq(rr)
+    qlist = _uniq([[idx(len(qrr)) for _ in range(rng.choice([0, 1, 2]))] if qrr else [] for _ in range(rng.choice([0, 1, 2]))])
+    rrlist = _uniq([[idx(len(rr)) for _ in range(rng.choice([0, 1, 3]))] if rr else [] for _ in range(rng.choice([0, 1, 2]))])
+    sigs = []
+    for _ in range(rng.choice([0, 1, 2])):
+        s = {}
+        if rng.random() < 0.8:       # else: present but empty
+            if rng.random() < 0.6:
+                s["server_address_index"] = idx(len(ips))
+            if rng.random() < 0.6:
+                s["server_port"] = nat(bounded(rng, 16))
+            if rng.random() < 0.4:
+                s["query_classtype_index"] = idx(len(cts))
+            if rng.random() < 0.4:
+                s["query_opt_rdata_index"] = idx(len(names))
+            if rng.random() < 0.4:
+                s["qr_type"] = nat(rng.randrange(6))
+            if rng.random() < 0.3:
+                s["query_ancount"] = nat(bounded(rng, 32))
+        sigs.append(s)
+    sigs = _uniq(sigs)
+    mmds = []
+    for _ in range(rng.choice([0, 1, 2])):
+        m = {}
+        if rng.random() < 0.8:
+            if rng.random() < 0.5:
+                m["server_address_index"] = idx(len(ips))
+            if rng.random() < 0.5:
+                m["server_port"] = nat(bounded(rng, 16))
+            if rng.random() < 0.5:
+                m["mm_payload"] = rng.choice([[1, 2, 3], [], [0] * 30])
+        mmds.append(m)
+    mmds = _uniq(mmds)
+    tables = {"ip": ips, "name": names, "ct": cts}
+    for k, v in (("qrr", qrr), ("rr", rr), ("qlist", qlist), ("rrlist", rrlist), ("sig", sigs), ("mmd", mmds)):
+        if v:
+            tables[k] = v
+    lim = ((1 << 63) - 1) // tps
+
+    def ts():
+        return {"s": nat(rng.choice([0, 5, 1500000000 % lim])), "t": nat(rng.randrange(tps))}
+    qrs = []
+    for _ in range(rng.choice([0, 1, 2, 3])):
+        q = {"client_port": nat(bounded(rng, 16))}
+        if rng.random() < 0.5:
+            q["time_offset"] = ts()
+        if rng.random() < 0.5:
+            q["client_address_index"] = idx(len(ips))
+        if sigs and rng.random() < 0.6:
+            q["qr_signature_index"] = idx(len(sigs))
+        if rng.random() < 0.4:
+            q["query_name_index"] = idx(len(names))
+        if rng.random() < 0.4:
+            q["response_delay"] = snum(sbounded(rng))
+        if rng.random() < 0.3:
+            q["rpd"] = {} if rng.random() < 0.4 else {"bailiwick_index": idx(len(names))}
+        for f in ("qe", "re"):
+            if rng.random() < 0.4:
+                e = {}
+                if qlist and rng.random() < 0.6:
+                    e["question_index"] = idx(len(qlist))
+                if rrlist and rng.random() < 0.6:
+                    e[rng.choice(["answer_index", "authority_index", "additional_index"])] = idx(len(rrlist))
+                q[f] = e          # possibly present but empty
+        if rng.random() < 0.2:
+            q["asn"] = pools.text()
+        qrs.append(q)
+    aecs = []
+    if odh & 2:
+        for _ in range(rng.choice([0, 1, 2])):
+            a = {"ae_type": nat(rng.randrange(6)), "ae_address_index": idx(len(ips))}
+            if rng.random() < 0.5:
+                a["ae_code"] = nat(rng.choice([0, 3]))
+            aecs.append(a)
+        aecs = _uniq(aecs)
+    mms = []
+    for _ in range(rng.choice([0, 0, 1, 2])):
+        m = {"client_port": nat(bounded(rng, 16))}
+        if rng.random() < 0.5:
+            m["time_offset"] = ts()
+        if mmds and rng.random() < 0.6:
+            m["message_data_index"] = idx(len(mmds))
+        if rng.random() < 0.4:
+            m["client_address_index"] = idx(len(ips))
+        mms.append(m)
+    op = {"op": "wbx", "bpi": bpi, "bp": bp, "tables": tables, "qrs": qrs, "aecs": aecs, "mms": mms}
+    if rng.random() < 0.4:
+        op["stats"] = gen_stats(rng)
+    return op
